@@ -434,6 +434,13 @@ SHAPES = [
     '_. 1', '1 ._', '1 .|', '1 ; 2', '1 \\n\\n 2', '1 ; 2 ; 3', ';; 1', '1 ;;', '{ 1 ; }', '{ ; 1 }', '$', '$? $!', '( ) 1',
     '{ 1 } ~~', '{ 1 ?> 2 }', '{ 1 && 2 }', '1 ?> { 2 }', '{ 1 } { 2 }', '1 ?> 2 ; 3', '1 ; 2 ?> 3', '1 ?> ;; |> 2',
     '1 ?> 2 |> ;;', '1 && ;;', ';;', ';; ;;', '{ ;; }', '( ;; )', '1 ?> ( ;; )', '1 && ( ;; )',
+    # repo commit df89d39: an empty nested expression inside an out-of-line root names the containing expression
+    '1 ?> { }', '1 !> { }', '1 ?> { } |> 2', '1 ?> 2 |> { }', '1 ?> { } |> { }', '1 ?> 2 |> 3 ?> { }', '1 && { }', '1 || { }',
+    '1 && 2 && { }', '1 && { } || { }', '{ 1 ?> { } }', '{ 1 && { } }', '{ 1 || { } }', '{ 1 ?> 2 |> { } }',
+    '{ $ == 1 ?> { } } ~ 1', '( { $ == 1 ?> { } } ~ 1 ) ~ 0', '{ 1 ?> { { } } }', '{ 1 ?> { 2 ?> { } } }', '1 ?> ( { } )',
+    '1 ?> { } + 1', '1 ?> 1 + { }', '1 ?> { } { }', '1 ?> { } , { }', '{ } ?> { }', '{ } && { }', '{ { } ?> { } }',
+    '{ 1 ?> { } |> 3 ?> { } |> { } }', '1 ?> [ { } ] 2', '{ 1 ?> ^~ { } }', '1 ?> { } ; { }', '{ 1 ; 2 ?> { } ; { } }',
+    '{ { 1 && { } } ?> { } }', '1 ?> { 2 && { } }',
 ]
 
 
